@@ -420,6 +420,30 @@ def main(argv=None):
             else:
                 merged["hyp_errors"].append("unrepeatable failure discarded: %s" % (keys,))
 
+    # ---- optional extra engine phase (libFuzzer campaigns)
+    extra_cov = {}
+    if not violations and hasattr(check, "extra_phase"):
+        try:
+            ex = check.extra_phase(ctx, tier, seed)
+        except Exception:
+            ex = {"error": traceback.format_exc()}
+        if ex.get("error"):
+            merged["hyp_errors"].append("extra phase: " + ex["error"])
+        merged["evaluations"] += ex.get("evaluations", 0)
+        extra_nt = ex.get("nontrivial", 0)
+        extra_cov = ex.get("coverage", {})
+        if len(merged["samples"]) < 8:
+            merged["samples"].extend(ex.get("samples", [])[:2])
+        for fc in ex.get("failing", []):
+            bad = judge_n(check, ctx, fc["case"], 3)
+            if bad:
+                d = save_failure(pid, fc)
+                violations.append((os.path.relpath(d, VERIF), bad))
+            else:
+                merged["hyp_errors"].append("unrepeatable fuzz artifact discarded")
+    else:
+        extra_nt = 0
+
     for k, n in merged["known_hits"].items():
         line = "KNOWN-FINDING: property=%s %s [%s] (%d generated cases)" % (pid, _what(known, k), k, n)
         known_lines.append(line)
@@ -427,7 +451,7 @@ def main(argv=None):
         print(line)
 
     wall = time.time() - t0
-    nontrivial = len(merged["nontrivial"])
+    nontrivial = len(merged["nontrivial"]) + extra_nt
     cov = {
         "evaluations": merged["evaluations"],
         "distinct_nontrivial": nontrivial,
@@ -444,6 +468,7 @@ def main(argv=None):
     }
     if check.exhaustive_note:
         cov["exhaustive_subspaces"] = check.exhaustive_note
+    cov.update(extra_cov)
     try:
         cov.update(check.extra_evidence(ctx, tier) or {})
     except Exception:
